@@ -1918,9 +1918,20 @@ pub fn generate(seed: u64) -> Workload {
     }
     // extern symbols
     let mut ext_json = Vec::new();
+    // exotic: the disassembler has no (complete) signature for some imports (no matching data type
+    // archive): the parameter list is cut short and/or the return value is missing
+    let unknown_sigs = g.exotic && r.chance(30);
     for (name, addr, nparams, has_ret, no_return, var_args) in g.externs.iter() {
+        let mut nparams = *nparams;
+        let mut has_ret = *has_ret;
+        if unknown_sigs && r.chance(35) {
+            nparams = r.below(nparams as u64 + 1) as usize;
+            if r.chance(40) {
+                has_ret = false;
+            }
+        }
         let mut args = Vec::new();
-        for k in 0..*nparams {
+        for k in 0..nparams {
             if p.stack_args || k >= p.params.len() {
                 let slot = if p.stack_args { p.ptr * (k as u64 + 1) } else { p.ptr * (k - p.params.len()) as u64 + if p.x86 { p.ptr } else { 0 } };
                 args.push(json!({"location": {"mnemonic": "LOAD", "input0": {"address": format!("{slot:08x}"), "size": p.ptr, "is_virtual": false}}, "intent": "INPUT"}));
@@ -1928,7 +1939,7 @@ pub fn generate(seed: u64) -> Workload {
                 args.push(json!({"var": {"name": p.params[k], "size": p.ptr, "is_virtual": false}, "intent": "INPUT"}));
             }
         }
-        if *has_ret {
+        if has_ret {
             args.push(json!({"var": {"name": p.ret, "size": p.ptr, "is_virtual": false}, "intent": "OUTPUT"}));
         }
         ext_json.push(json!({
